@@ -1619,6 +1619,16 @@ async fn session_full(out: &mut Out, rng: &mut Rng, script: Option<(usize, Vec<S
                     }
                     22..=29 => {
                         let mut blk = Vec::new();
+                        // since fix de38a13 the batch collectors and the fast path are alive: a run of
+                        // GET frames at the head of the write is taken by `collect_get_keys`
+                        // (`fast_batch_get_pipeline`) right before the transaction in the same read
+                        let lead = if rng.chance(1, 2) { rng.range(2, 4) } else { 0 };
+                        for _ in 0..lead {
+                            blk.push(Inp::Cmd(Cmd::Get(key(rng))));
+                        }
+                        if lead > 0 {
+                            out.count("pipelined-block:get-run-before-the-transaction");
+                        }
                         if rng.chance(1, 2) {
                             blk.push(Inp::Watch(vec![key(rng)]));
                         }
@@ -1635,6 +1645,16 @@ async fn session_full(out: &mut Out, rng: &mut Rng, script: Option<(usize, Vec<S
                             });
                         }
                         blk.push(if rng.chance(1, 8) { Inp::Discard } else { Inp::Exec(vec![]) });
+                        // … and a run of GET frames right after EXEC / DISCARD in the same write (the generic
+                        // loop hands them to `try_fast_path` one by one: the flag is down again; they must
+                        // see what the transaction wrote).  Reads only: the block's store dump is taken
+                        // after the whole write has been served.
+                        if rng.chance(1, 2) {
+                            out.count("pipelined-block:get-run-after-the-transaction");
+                            for _ in 0..rng.range(2, 4) {
+                                blk.push(Inp::Cmd(Cmd::Get(key(rng))));
+                            }
+                        }
                         w.pipelined(out, blk).await
                     }
                     30..=46 => w.input(out, Inp::Multi).await,
